@@ -245,6 +245,10 @@ func (r *reader) value(t *Ty, v *J, where string) *Exp {
 	case "scalar":
 		return r.scalar(t.Kind, v, where)
 	case "enum":
+		if t.Unsupported != "" {
+			r.flag(MustReject, where, "type without codec support")
+			return nil
+		}
 		if v.K != "str" {
 			r.flag(MustReject, where, "wrong JSON type")
 			return nil
